@@ -1,6 +1,7 @@
 """C17: socket addresses survive conversion and are reported truthfully."""
 import tops
 from props.c20 import OVERLAY
+from engine import EngineZone
 
 
 class SockaddrC(tops.Component):
@@ -17,8 +18,8 @@ class SockaddrC(tops.Component):
 
 
 def main(tier, replay):
-    return tops.run("C17", [SockaddrC()], tier,
-                    level_text="proof for the conversion half: round-trip and totality theorems on a model of sockaddr.go with the interface table as a parameter (Props/C17.lean); partial for the runtime half (RemoteAddr/LocalAddr truthful for the whole life of a connection under churn), which is decided by the reactor trace checks. Tie: T-ops correspondence on the real conversion functions with this host's interface table + round-trip oracle",
+    return tops.run("C17", [SockaddrC(), EngineZone()], tier,
+                    level_text="proof for the conversion half: round-trip and totality theorems on a model of sockaddr.go with the interface table as a parameter (Props/C17.lean); partial for the runtime half (RemoteAddr/LocalAddr truthful for the whole life of a connection under churn), which is checked in real client lives against a link-local IPv6 peer (addresses of a live connection must not change while other connections close and pooled memory is reused) and in the engine lives of C06/C19. Tie: T-ops correspondence on the real conversion functions with this host's interface table + round-trip oracle",
                     assumptions=["net.IP.To4/To16/Equal and the interface table are modelled, not verified", "numeric zones that coincide with an existing interface index come back as that interface's name (same zone)"],
                     replay=replay,
                     partial_note="runtime half (addresses reported by live connections) is checked on traces, not proved")
